@@ -201,8 +201,22 @@ PLAN = {
              dict(CHAIN, InitRBases='<-RB_Chain3', MaxLive=3, MaxDepth=100,
                   Flavour='"verify"'),
              dict(sb='SB_One', rb='RB_Chain3', num=200, depth=14)),
+            # rebuild() between subscriptions and unsubscriptions (it leaves
+            # the abstract state unchanged: only random behaviours pass it)
+            ('subscriptions with rebuild sim', 'sim',
+             dict(BOOKS, Muts='{"sub","unsub","rebuild"}',
+                  SubKeys='<-SubKeysRebuild', LookKeys='<-LookKeysRebuild',
+                  Queries='{"subs"}', MaxLive=4, MaxDepth=100),
+             dict(sb='SB_Chain2', rb='RB_One', eq12=True, num=300,
+                  depth=16)),
         ],
         'thorough': [
+            ('subscriptions with rebuild sim', 'sim',
+             dict(BOOKS, Muts='{"sub","unsub","rebuild"}',
+                  SubKeys='<-SubKeysRebuild', LookKeys='<-LookKeysRebuild',
+                  Queries='{"subs"}', MaxLive=5, MaxDepth=100),
+             dict(sb='SB_Chain2', rb='RB_One', eq12=True, num=4000,
+                  depth=25)),
             ('subs<=3', 'states', dict(SUBS, MaxLive=3),
              dict(sb='SB_Diamond', rb='RB_Two')),
             ('subs-sim', 'sim', dict(SUBS, MaxLive=6),
@@ -220,6 +234,11 @@ PLAN = {
             ('order<=2 copy', 'states', ORDER,
              dict(sb='SB_Diamond', rb='RB_One', copy=True, noise=True,
                   absent=True, sample=600)),
+            # histories that come back to a state they have been in (a key
+            # emptied and used again): never a shortest prefix
+            ('books-sim', 'sim', dict(BOOKS, MaxLive=4, MaxDepth=100),
+             dict(sb='SB_Chain2', rb='RB_One', copy=True, eq12=True,
+                  num=250, depth=20)),
         ],
         'thorough': [
             ('books d7', 'edges', dict(BOOKS, MaxDepth=7),
